@@ -931,4 +931,97 @@ theorem add_entry_amounts_value (hmax fee used nvc : Nat) (h1 : fee ≤ hmax) (h
 example : add_entry_amounts 9 1 4 100 = some (4, 5) := by decide
 example : add_entry_amounts 9 10 0 100 = none := by decide
 
+/-! ### C16-r5b: DirectedChannelInfo::effective_capacity translated -/
+
+/-- the model's capacity of a public channel direction (`Chan.pubCapacity`, which `routeValid` uses) IS the translated
+    routing/gossip.rs DirectedChannelInfo::effective_capacity on the direction's htlc_maximum_msat and the channel's
+    capacity_sats (`cap` holds capacity_sats * 1000, as the harness dumps it) -/
+theorem pub_capacity_is_translated (c : Chan) (sats : Option Nat) (h : c.cap = sats.map (· * 1000)) :
+    c.pubCapacity = directed_channel_effective_capacity c.htlcMax sats := by
+  unfold Chan.pubCapacity directed_channel_effective_capacity
+  cases sats with
+  | none => simp [h]
+  | some s => simp [h]
+example : directed_channel_effective_capacity 5000 (some 3) = .total 3000 3000 := by decide
+example : directed_channel_effective_capacity 5000 none = .advertisedMaxHTLC 5000 := by decide
+
+/-- every public channel direction of a valid route carries, jointly over all paths, at most the TRANSLATED effective maximum:
+    max_htlc_from_capacity (translated) of DirectedChannelInfo::effective_capacity (translated) = min(htlc_maximum_msat,
+    capacity_sats * 1000) -/
+theorem valid_route_hop_within_translated_maximum (g : Graph) (p : Params) (r : Route) (h : RouteOK g p r)
+    (c : Chan) (hc : c ∈ g) (hk : c.kind = .publicHop) (sats : Option Nat) (hs : c.cap = sats.map (· * 1000)) :
+    usageOn g p r c ≤ max_htlc_from_capacity (directed_channel_effective_capacity c.htlcMax sats) 0 ∧
+    max_htlc_from_capacity (directed_channel_effective_capacity c.htlcMax sats) 0 =
+      (match sats with | some s => min c.htlcMax (s * 1000) | none => c.htlcMax) := by
+  have hl : c.limit = max_htlc_from_capacity (directed_channel_effective_capacity c.htlcMax sats) 0 := by
+    unfold Chan.limit Chan.effectiveCapacity candidate_capacity
+    rw [hk, pub_capacity_is_translated c sats hs]
+  refine ⟨hl ▸ h.capacity c hc, ?_⟩
+  rw [← hl, limit_is_min_of_max_and_capacity c, hk]
+  cases sats with
+  | none => simp [hs]
+  | some s => simp [hs]
+example : max_htlc_from_capacity (directed_channel_effective_capacity 5000 (some 3)) 0 = 3000 := by decide
+
+/-! ### C16-r5b: booking of selected paths in `used_liquidities` (get_route, after update_value_and_recompute_fees) -/
+
+/-- one booking step stays within the maximum -/
+theorem book_one_within (hmax : Nat) (u : Option Nat) (s : Sel) (h : s.ok hmax u) :
+    book_used_liquidity u (spent_on_hop_msat s.w s.fee') ≤ hmax := by
+  obtain ⟨v, a, ha, hs, hm, hw, hf⟩ := h
+  obtain ⟨h1, h2, _⟩ := add_entry_amount_within_remaining_limit hmax s.fee (u.getD 0) s.nvc v a s.minimal ha hs hm
+  cases u with
+  | none =>
+    simp only [Option.getD_none] at h2
+    simp only [book_used_liquidity, spent_on_hop_msat]
+    omega
+  | some x =>
+    simp only [Option.getD_some] at h2
+    simp only [book_used_liquidity, spent_on_hop_msat]
+    omega
+example : book_used_liquidity (some 5) (spent_on_hop_msat 3 1) = 9 := by decide
+
+/-- THE AGGREGATE BOUND ON WHAT IS BOOKED, for every list of selected paths (induction over the selection order): if every path
+    was admitted by add_entry! against the entry as it stood and built with at most the admitted amounts, the candidate's
+    used_liquidities entry never exceeds htlc_maximum_msat — get_route's `debug_assert!(*used_liquidity_msat <= hop_max_msat)` -/
+theorem booked_liquidity_within_maximum (hmax : Nat) (l : List Sel) (u : Option Nat) (hu : u.getD 0 ≤ hmax)
+    (h : AllOK hmax u l) : (bookAll u l).getD 0 ≤ hmax := by
+  induction l generalizing u with
+  | nil => simpa [bookAll] using hu
+  | cons s t ih =>
+    cases h with
+    | cons _ _ _ hs ht =>
+      simp only [bookAll]
+      exact ih _ (by simpa using book_one_within hmax u s hs) ht
+example : AllOK 9 none [⟨1, 100, 3, 4, 1⟩, ⟨1, 100, 3, 3, 1⟩] ∧ bookAll none [⟨1, 100, 3, 4, 1⟩, ⟨1, 100, 3, 3, 1⟩] = some 9 := by
+  refine ⟨.cons _ _ _ ⟨8, 9, by decide, by decide, by decide, by decide, by decide⟩
+    (.cons _ _ _ ⟨3, 4, by decide, by decide, by decide, by decide, by decide⟩ (.nil _)), by decide⟩
+
+/-- the entry is the sum of what was booked -/
+theorem bookAll_sum (l : List Sel) (x : Nat) :
+    (bookAll (some x) l).getD 0 = x + (l.map fun s => spent_on_hop_msat s.w s.fee').sum := by
+  induction l generalizing x with
+  | nil => simp [bookAll]
+  | cons s t ih => simp only [bookAll, book_used_liquidity, List.map_cons, List.sum_cons]; rw [ih]; omega
+example : (bookAll (some 2) [⟨0, 0, 0, 3, 1⟩, ⟨0, 0, 0, 1, 0⟩]).getD 0 = 7 := by decide
+
+/-- Σ over the selected paths of the amount CARRIED over one candidate ≤ its maximum — PARTIAL: needs `carried = booked` for
+    every path. That hypothesis is exactly what the known findings falsify: KF-C16-11 (a hop raised to its OWN htlc_minimum
+    carries max(htlc_minimum, booked), kf11_hop_amount_is_max_of_minimum_and_booking) and KF-C16-10 (step (8) merges identical
+    paths and recomputes the fee on the sum: carried ≤ Σ booked + 1 per merged pair, kf10_merged_fee_exceeds_parts_by_at_most_one) -/
+theorem carried_liquidity_within_maximum_partial (hmax : Nat) (l : List Sel) (carried : Sel → Nat)
+    (h : AllOK hmax none l) (hc : ∀ s ∈ l, carried s = spent_on_hop_msat s.w s.fee') :
+    (l.map carried).sum ≤ hmax := by
+  have hb := booked_liquidity_within_maximum hmax l none (by simp) h
+  cases l with
+  | nil => simp
+  | cons s t =>
+    simp only [bookAll, book_used_liquidity] at hb
+    rw [bookAll_sum] at hb
+    have e : ((s :: t).map carried) = ((s :: t).map fun s => spent_on_hop_msat s.w s.fee') :=
+      List.map_congr_left hc
+    rw [e]; simpa using hb
+/-- the KF-C16-11 probe: two paths admitted and booked with 4 + 4 ≤ 9, each CARRYING 5 (raised to the first hop's minimum): 10 > 9 -/
+example : bookAll none [⟨1, 100, 3, 3, 1⟩, ⟨1, 100, 3, 3, 1⟩] = some 8 ∧ ¬ (([5, 5] : List Nat).sum ≤ 9) := by decide
+
 end Ldk.C16
